@@ -146,40 +146,60 @@ def gen_prio(rng):
                          (("p", 1, 2), 1), (("p", 2, 4), 1), (("p", 5, 1), 1)])
 
 
-def gen_value(rng, depth, nkeys):
+def canon_atom(k, depth):
+    """the atom a field usually holds, so that both operands of a merge mostly agree"""
+    return [("n", 1, 1), ("s", 1), ("n", 4, 1), ("b", 1), ("s", 0), ("n", 5, 2)][(k + 2 * depth) % 6]
+
+
+def sat(c, a):
+    if a[0] == "n":
+        return c == 0 or (c == 3 and a[1] > 0) or (c == 4 and a[2] == 1 and a[1] % 2 == 0)
+    if a[0] == "s":
+        return c == 1 or (c == 5 and a[1] != 0)
+    if a[0] == "b":
+        return c == 2
+    return False
+
+
+def gen_value(rng, depth, nkeys, k=0, wild=3):
     c = rng.below(20)
     if depth <= 0 or c < 9:
-        return gen_atom(rng)
+        return gen_atom(rng) if rng.below(10) < wild else canon_atom(k, depth)
     if c < 15:
-        return gen_record(rng, depth - 1, nkeys)
+        return gen_record(rng, depth - 1, nkeys, wild=wild)
     if c < 17:
-        return ("a", [gen_plain(rng, 1) for _ in range(rng.below(3))])
+        return ("a", [canon_atom(k + i, depth) if rng.below(10) >= wild else gen_plain(rng, 1) for i in range(rng.below(3))])
     if c < 18:
-        return ("v", rng.below(2), gen_plain(rng, 1) if rng.chance(1, 2) else gen_record(rng, 0, nkeys))
-    return ("m", gen_value(rng, depth - 1, nkeys), gen_value(rng, depth - 1, nkeys))
+        return ("v", rng.below(2), canon_atom(k, depth) if rng.chance(1, 2) else gen_record(rng, 0, nkeys, wild=wild))
+    return ("m", gen_value(rng, depth - 1, nkeys, k, wild), gen_value(rng, depth - 1, nkeys, k, wild))
 
 
-def gen_record(rng, depth, nkeys, dup=False):
+def gen_record(rng, depth, nkeys, dup=False, wild=3):
     n = rng.weighted([(0, 1), (1, 4), (2, 5), (3, 3)])
     ks = [rng.below(nkeys) for _ in range(n)]
     if not dup:
         ks = list(dict.fromkeys(ks))
     fs = []
     for k in ks:
-        v = None if rng.chance(1, 6) else gen_value(rng, depth, nkeys)
+        v = None if rng.below(40) < wild else gen_value(rng, depth, nkeys, k, wild)
         cs = []
         if rng.chance(1, 3):
-            cs = [rng.below(len(CONTRACTS)) for _ in range(rng.range(1, 2))]
+            if v is not None and v[0] in "nsb" and rng.below(10) >= wild:
+                good = [c for c in range(len(CONTRACTS)) if sat(c, v)]
+                cs = [rng.choice(good)] if good else []
+            elif v is None or v[0] in "nsbzt":
+                cs = [rng.below(len(CONTRACTS)) for _ in range(rng.range(1, 2))]
         fs.append((k, gen_prio(rng), int(rng.chance(1, 7)), int(rng.chance(1, 8)), cs, v))
     return ("r", fs)
 
 
-def gen_expr(rng, depth=2, nkeys=3):
-    """a record-valued expression: literal or merge of literals"""
+def gen_expr(rng, depth=2, nkeys=3, wild=3):
+    """a record-valued expression: literal or merge of literals; `wild` (0..10) is the share of
+    choices made at random instead of the agreeing/satisfying default (malformed stream: 10)"""
     c = rng.below(10)
     if c < 7:
-        return gen_record(rng, depth, nkeys, dup=rng.chance(1, 6))
-    return ("m", gen_record(rng, depth, nkeys), gen_record(rng, depth, nkeys))
+        return gen_record(rng, depth, nkeys, dup=rng.chance(1, 6), wild=wild)
+    return ("m", gen_record(rng, depth, nkeys, wild=wild), gen_record(rng, depth, nkeys, wild=wild))
 
 
 def permute_fields(rng, e):
